@@ -1,9 +1,191 @@
 import StraxModel.Driver.Parse
-namespace Strax.Driver
-open Strax
+import StraxModel.Model.Contract
+/-
+  Driver ops of property C12 (theory T11 Contract).  One token per argument, no spaces inside.
 
-/-- ops of property C12 (stub: no ops yet) -/
-def handleC12 : List String → Option String
+  rdtype   `-` (no fields) or fields separated by `;`, a field is `name:code` or `title/name:code`
+  plugin   `provides+dtype+dtypes+kind+kinds+runId+target`
+             provides `a,b` ; dtypes `d=rdtype&d=rdtype` or `-` ; kinds `d=k&d=k` or `-`
+  leaf     `A~rdtype~rows` array | `C~declared~datadtype~rawchunk` chunk (built with `chunkInit`)
+           | `D~k=1,2&k2=3` column dict (`D~-` empty) | `N` None | `S~n` sequence | `P~n` plain array
+  result   leaf | `O@key^leaf@key^leaf` dict of outputs (`O` = empty)
+  range    `-` | `start,stop`
+  down     `X` not a generator | `G#result#result…`
+-/
+namespace Strax.Driver
+open Strax Strax.Contract
+
+def parseField (s : String) : Option RField :=
+  match s.splitOn ":" with
+  | [nm, code] =>
+    match nm.splitOn "/" with
+    | [n] => some ⟨none, n, code⟩
+    | [t, n] => some ⟨some t, n, code⟩
+    | _ => none
   | _ => none
+
+def parseRDtype (s : String) : Option RDtype :=
+  if s == "-" then some [] else (s.splitOn ";").mapM parseField
+
+def parseKV (f : String → Option α) (s : String) : Option (List (String × α)) :=
+  if s == "-" then some []
+  else (s.splitOn "&").mapM fun kv =>
+    match kv.splitOn "=" with
+    | [k, v] => do pure (k, ← f v)
+    | _ => none
+
+def parsePlugin (s : String) : Option Plugin :=
+  match s.splitOn "+" with
+  | [prov, dt, dts, k, ks, rid, tg] => do
+    pure { provides := splitList prov ",", dtype := ← parseRDtype dt, dtypes := ← parseKV parseRDtype dts,
+           kind := k, kinds := ← parseKV some ks, runId := rid, target := ← tg.toNat? }
+  | _ => none
+
+def showDtype (d : Dtype) : String :=
+  if d.isEmpty then "-" else ";".intercalate (d.map fun (n, c) => s!"{n}:{c}")
+
+/-- chunk text without the target size (it depends on the item size of the dtype) -/
+def showChunk12 (c : Chunk) : String :=
+  s!"{c.dataType}|{c.kind}|{showStrOpt c.runId}|{c.start}|{c.stop}|{showRows c.rows}|{showRunsOpt c.subruns}|{showRuns c.superrun}"
+
+def showCChunk (c : CChunk) : String :=
+  s!"{showChunk12 c.c}~{showDtype (stripTitles c.dtype)}~{showDtype (stripTitles c.dataDtype)}"
+
+def showFixed : Fixed → String
+  | .one c => s!"one {showCChunk c}"
+  | .many l => "many" ++ String.join (l.map fun (d, c) => s!" {d}={showCChunk c}")
+
+def rawToCChunk (declared : RDtype) (data : DataArg) (r : RawChunk) : Except Err CChunk :=
+  chunkInit r.dataType r.kind r.runId declared r.start r.stop data r.subruns r.superrun r.target
+
+/-- `Option (Except …)`: outer = parse failure, inner = the chunk could not be constructed -/
+def parseLeaf (s : String) : Option (Except Err Leaf) :=
+  match s.splitOn "~" with
+  | ["A", dt, rows] => do pure (.ok (.array (← parseRDtype dt) (← parseRows rows)))
+  | ["C", decl, ddt, rc] => do
+    let decl ← parseRDtype decl; let ddt ← parseRDtype ddt; let rc ← parseRawChunk rc
+    pure ((rawToCChunk decl (.array ddt rc.rows) rc).map Leaf.chunk)
+  | ["D", e] => do pure (.ok (.cols (← parseKV parseInts e)))
+  | ["N"] => some (.ok .noneVal)
+  | ["S", n] => do pure (.ok (.seq (← n.toNat?)))
+  | ["P", n] => do pure (.ok (.plain (← n.toNat?)))
+  | _ => none
+
+def seqExcept : List (String × Except Err Leaf) → Except Err (List (String × Leaf))
+  | [] => .ok []
+  | (k, x) :: rest => do
+    let v ← x
+    let r ← seqExcept rest
+    pure ((k, v) :: r)
+
+def parseResult (s : String) : Option (Except Err Result) :=
+  if s == "O" then some (.ok (.outputs []))
+  else if s.startsWith "O@" then do
+    let entries ← ((s.drop 2).toString.splitOn "@").mapM fun kv =>
+      match kv.splitOn "^" with
+      | [k, l] => do pure (k, ← parseLeaf l)
+      | _ => none
+    pure ((seqExcept entries).map Result.outputs)
+  else do
+    let l ← parseLeaf s
+    pure (l.map Result.leaf)
+
+def parseRange (s : String) : Option (Option (Int × Int)) :=
+  if s == "-" then some none
+  else match s.splitOn "," with
+    | [a, b] => do pure (some (← a.toInt?, ← b.toInt?))
+    | _ => none
+
+def seqExceptL : List (Except Err α) → Except Err (List α)
+  | [] => .ok []
+  | x :: rest => do
+    let v ← x
+    let r ← seqExceptL rest
+    pure (v :: r)
+
+def parseDown (s : String) : Option (Except Err DownResult) :=
+  if s == "X" then some (.ok .notGenerator)
+  else if s == "G" then some (.ok (.gen []))
+  else if s.startsWith "G#" then do
+    let items ← ((s.drop 2).toString.splitOn "#").mapM parseResult
+    pure ((seqExceptL items).map DownResult.gen)
+  else none
+
+def parseDataArg (s : String) (rows : List Row) : Option DataArg :=
+  if s == "None" then some .none
+  else if s == "!" then some .notArray
+  else do pure (.array (← parseRDtype s) rows)
+
+def showPartial (f : α → String) (x : List α × Option Err) : String :=
+  let body := if x.1.isEmpty then "-" else " ".intercalate (x.1.map f)
+  match x.2 with
+  | none => s!"ok {x.1.length} {body}"
+  | some e => s!"err {e.name} after {x.1.length} {body}"
+
+def parseDecl (prov dt kd : String) : Option PluginDecl := do
+  let d ← if dt == "missing" then some DtypeDecl.missing
+    else if dt.startsWith "dict:" then do pure (DtypeDecl.dict (← parseKV parseRDtype (dt.drop 5).toString))
+    else do pure (DtypeDecl.single (← parseRDtype dt))
+  pure ⟨splitList prov ",", d, ← parseBool kd⟩
+
+/-- a saver-protocol run: outputs `k` (a good chunk of that start..) or `!Kind` -/
+def parseOuts (s : String) : Option (List (Except Err (Int × Int))) :=
+  (splitList s ",").mapM fun t =>
+    if t.startsWith "!" then some (.error .valueError)
+    else match t.splitOn ":" with
+      | [a, b] => do pure (.ok (← a.toInt?, ← b.toInt?))
+      | _ => none
+
+def handleC12 : List String → Option String
+  | ["c12.strip", dt] => do
+    let dt ← parseRDtype dt
+    pure s!"ok {showDtype (stripTitles dt)}"
+  | ["c12.chunk", decl, data, rc] => do
+    let decl ← parseRDtype decl; let rc ← parseRawChunk rc; let data ← parseDataArg data rc.rows
+    pure <| showExcept showCChunk (rawToCChunk decl data rc)
+  | ["c12.chunkold", decl, data, rc] => do
+    let decl ← parseRDtype decl; let rc ← parseRawChunk rc; let data ← parseDataArg data rc.rows
+    pure <| showExcept showCChunk
+      (chunkInitOld rc.dataType rc.kind rc.runId decl rc.start rc.stop data rc.subruns rc.superrun rc.target)
+  | ["c12.pchunk", p, range, d, data, rows] => do
+    let p ← parsePlugin p; let rows ← parseRows rows; let data ← parseDataArg data rows
+    let (a, b) ← (← parseRange range)
+    pure <| showExcept showCChunk (p.chunk a b data (parseStrOpt d))
+  | ["c12.checkdtype", p, d, leaf] => do
+    let p ← parsePlugin p; let l ← parseLeaf leaf
+    pure <| showExcept (fun _ => "-") (l >>= fun l => checkDtype p l (parseStrOpt d))
+  | ["c12.fix", p, range, sup, sub, res] => do
+    let p ← parsePlugin p; let range ← parseRange range; let sup ← parseRunsOpt sup; let sub ← parseRunsOpt sub
+    let r ← parseResult res
+    pure <| showExcept showFixed (r >>= fun r => fixOutput p r range sup sub)
+  | ["c12.fixdown", p, sup, sub, res] => do
+    let p ← parsePlugin p; let sup ← parseRunsOpt sup; let sub ← parseRunsOpt sub
+    let r ← parseDown res
+    match r with
+    | .error e => pure (showErr e)
+    | .ok r => pure <| showPartial showFixed (fixOutputDown p r sup sub)
+  | "c12.stream" :: cs => do
+    let cs ← cs.mapM parseRawChunk
+    match rawChunksToChunks' cs with
+    | .error e => pure (showErr e)
+    | .ok cs => pure <| showPartial (fun c => s!"{c.start}:{c.stop}") (targetStream cs)
+  | ["c12.fixdtype", prov, dt, kd] => do
+    let d ← parseDecl prov dt kd
+    pure <| showExcept (fun _ => "-") (fixDtype d)
+  | ["c12.process", outs] => do
+    let outs ← parseOuts outs
+    -- consumer-side check: continuity of [start, stop) pairs
+    let check : Option Int → (Int × Int) → Except Err (Option Int) := fun last c =>
+      match last with
+      | some e => if c.1 != e then .error .valueError else .ok (some c.2)
+      | none => .ok (some c.2)
+    let (sv, out, e) := process check none outs {}
+    let vis := if sv.visible then "stored" else "not-stored"
+    pure <| match e with
+      | none => s!"ok {out.length} {vis} written={sv.written.length}"
+      | some e => s!"err {e.name} after {out.length} {vis} written={sv.written.length}"
+  | _ => none
+where
+  rawChunksToChunks' (rs : List RawChunk) : Except Err (List Chunk) := rs.mapM (·.mk')
 
 end Strax.Driver
